@@ -695,7 +695,7 @@ func (r *run) mpdFailure(as *assetState, url string, err error) {
 		"default_sample_duration": as.audio.Dflt, "codec_family": as.codec, "audio_timescale": as.A}
 	resp := as.ls.GetRaw(url)
 	if resp.Panic != "" {
-		id := r.add(fmt.Sprintf("KTimeline 0 0 [(1, 0)] %s %d %d %s 2 []", u(as.R), as.audio.Dflt, as.codec, u(as.A)), in, false)
+		id := r.add(fmt.Sprintf("KTimeline 0 0 [(1, 0)] %s %s %d %d %s 2 []", u(as.R), u(as.F), as.audio.Dflt, as.codec, u(as.A)), in, false)
 		c.Fail(id, "mpd-panic:"+resp.Panic, "the MPD request panics: "+url, in)
 		c.Count("l1:" + as.d.Name + ":mpd-panic")
 		return
@@ -931,7 +931,7 @@ func (r *run) timelineRun(as *assetState, prefix string, nowMS int64, nFetch int
 		}
 		obs = append(obs, fmt.Sprintf("(%s, %d, %d)", lib.Zs(tt), s.D, s.R))
 	}
-	id := r.add(fmt.Sprintf("KTimeline 0 %s [%s] %s %d %d %s 0 [%s]", u(in.RefT), strings.Join(ents, "; "), u(t.videoTS), as.audio.Dflt, as.codec, u(t.audioTS), strings.Join(obs, "; ")), in, false)
+	id := r.add(fmt.Sprintf("KTimeline 0 %s [%s] %s %s %d %d %s 0 [%s]", u(in.RefT), strings.Join(ents, "; "), u(t.videoTS), u(as.F), as.audio.Dflt, as.codec, u(t.audioTS), strings.Join(obs, "; ")), in, false)
 	c.Count("l1:" + as.d.Name + ":mpd-timeline")
 	v, a := expandTL(t.videoTL), expandTL(t.audioTL)
 	// oracle: the audio timeline lists exactly the frame-aligned images of the video entries
@@ -1565,7 +1565,7 @@ func (r *run) l2Arith() {
 		for _, e := range out {
 			obs = append(obs, fmt.Sprintf("(%s, %d, %d)", lib.Zs(e[0]), e[1], e[2]))
 		}
-		id := r.add(fmt.Sprintf("KTimeline %s %s [%s] %s %d %d %s %d [%s]", lib.Zs(int64(startNr)), u(refT), strings.Join(ents, "; "), u(rr), rd.DefaultSampleDuration, codec, u(a), cls, strings.Join(obs, "; ")), in, false)
+		id := r.add(fmt.Sprintf("KTimeline %s %s [%s] %s %d %d %d %s %d [%s]", lib.Zs(int64(startNr)), u(refT), strings.Join(ents, "; "), u(rr), F32, rd.DefaultSampleDuration, codec, u(a), cls, strings.Join(obs, "; ")), in, false)
 		c.Count(fmt.Sprintf("l2:generateTimelineEntriesFromRef:class%d", cls))
 		if cls == 0 && startNr >= 0 && F > 0 {
 			// oracle: expanded entries are the frame-aligned images of the reference entries
